@@ -118,6 +118,21 @@ Section Rets.
     eapply rets_bind'; [apply get_client_rets|]. intros [c|] H; simpl; [|exact I].
     destruct (c_public c || cr_ok cr)%bool; simpl; auto.
   Qed.
+
+  (* jwt-bearer: the authenticated client, or the anonymous one - only for a request that names
+     nobody, and only when client authentication is not required for the grant *)
+  Definition found_or_anon (cr : cred) (oc : option client) : Prop :=
+    match oc with
+    | Some c => (c_id c = cr_id cr /\ QC c) \/
+                (c = anonymous_client (w_cfg w) /\ cr_id cr = 0 /\ cf_jwt_bearer_authn_required (w_cfg w) = false)
+    | None => True end.
+  Lemma jwt_bearer_client_rets cr : rets (found_or_anon cr) (jwt_bearer_client w cr).
+  Proof.
+    unfold jwt_bearer_client. eapply rets_bind'; [apply authenticated_rets|]. intros [c|] H; simpl; [left; exact H|].
+    destruct (is_nil (cr_id cr)) eqn:E1; simpl; [|exact I].
+    destruct (cf_jwt_bearer_authn_required (w_cfg w)) eqn:E2; simpl; [exact I|].
+    right. repeat split; auto. apply N.eqb_eq in E1. exact E1.
+  Qed.
 End Rets.
 
 (* ---- the sequential run of the two lookups: the store is unchanged and the answer is a function of it ---- *)
@@ -149,6 +164,18 @@ Proof.
   unfold authenticated, auth_of. destruct (is_nil (cr_id cr)); simpl; auto.
   rewrite run_seq_bind, run_get_client. simpl. destruct (client_of w st (cr_id cr)) as [c|]; simpl; auto.
   destruct (c_public c || cr_ok cr)%bool; reflexivity.
+Qed.
+(* jwt-bearer: the client the handler goes on with *)
+Definition jwt_bearer_client_of (w : world) (st : store) (cr : cred) : option client :=
+  match auth_of w st cr with
+  | Some c => Some c
+  | None => if andb (is_nil (cr_id cr)) (negb (cf_jwt_bearer_authn_required (w_cfg w)))
+            then Some (anonymous_client (w_cfg w)) else None
+  end.
+Lemma run_jwt_bearer_client w cr st : run_seq (jwt_bearer_client w cr) st = (st, jwt_bearer_client_of w st cr).
+Proof.
+  unfold jwt_bearer_client, jwt_bearer_client_of. rewrite run_seq_bind, run_authenticated. simpl.
+  destruct (auth_of w st cr); simpl; auto. destruct (_ && _)%bool; reflexivity.
 Qed.
 Lemma client_of_some w st i c : client_of w st i = Some c -> (In c (w_static w) \/ In c (st_clients st)) /\ c_id c = i.
 Proof.
